@@ -46,16 +46,19 @@ ObserveMap(job) ==
 
 \* a sequence of runs (job.seq = runner modes) sharing ONE cache backend of capacity job.cap
 RECURSIVE RunSeq(_, _, _, _)
+\* an entry "sync@2" / "async@2" runs the job's ALTERNATIVE program job.alt (another graph sharing the cache)
+SeqMode(m) == IF m \in {"sync", "sync@2"} THEN "sync" ELSE "async"
+SeqProg(job, m) == IF m \in {"sync@2", "async@2"} THEN job.alt ELSE job.prog
 RunSeq(job, k, cache, acc) ==
   IF k > Len(job.seq) THEN acc
   ELSE LET w == [WorldOf(job) EXCEPT !.cache = cache, !.cap = job.cap]
-           r == RunProg(job.prog, "", job.provided, w, job.seq[k])
+           r == RunProg(SeqProg(job, job.seq[k]), "", job.provided, w, SeqMode(job.seq[k]))
        IN RunSeq(job, k + 1, r.w.cache, Append(acc, r))
 ObserveSeq(job) ==
   LET rs == RunSeq(job, 1, <<>>, <<>>)
   IN [id |-> job.id, isseq |-> TRUE,
       runs |-> [k \in 1..Len(rs) |->
-                 [status |-> rs[k].status, values |-> FilterOut(job.prog, rs[k].vals, job.select), err |-> rs[k].err,
+                 [status |-> rs[k].status, values |-> FilterOut(SeqProg(job, job.seq[k]), rs[k].vals, job.select), err |-> rs[k].err,
                   calls |-> rs[k].calls, hits |-> rs[k].w.hits]],
       aux |-> Aux(Prop, job)]
 
